@@ -1,6 +1,6 @@
 (* C11 — wire messages round-trip exactly and match the compact-encoding spec.
-   This file contains only pinned statements; proofs live in CodecFacts.v. *)
-From HC Require Import Base Codec CodecFacts.
+   This file contains only pinned statements; proofs live in CodecFacts.v and CodecTie.v. *)
+From HC Require Import Base Codec CodecFacts CodecDesc SrcCodec CodecTie.
 
 Theorem C11_node : codec_law node_ok size_node enc_node dec_node.
 Proof. exact law_node. Qed.
@@ -34,6 +34,63 @@ Theorem C11_uint_spec : forall v, fits_u64 v = true ->
   /\ forall r, dec_uint (enc_uint v ++ r) = Ok (v, r).
 Proof. intros v Hv. split; [reflexivity|]. split; [apply len_enc_uint | intros r; now apply dec_enc_uint]. Qed.
 
+(* Tie to the source, regenerated on every run: tools/srccodec.py parses each `impl CompactEncoding for T` of
+   /repo/src/encoding.rs (the field lists of sum_encoded_size! / map_encode! / map_decode! + the constructor, the field
+   types from the struct definitions) into SrcCodec.v; `tied_codec None _` (impl no longer in the macro form) is True.
+   For every impl that was found: the model's encoder is the generic interpretation [genc] of the source's field list
+   (the same fields, in the source's order, with the source's types), the model's size is the interpretation [gsize] of
+   the source's size list, the model's decoder is the interpretation [gdecode] of the source's type list and
+   constructor, and the source's three functions agree with each other. *)
+Theorem C11_source_codecs :
+  tied_codec src_Node (is_codec env_node build_node enc_node size_node dec_node) /\
+  tied_codec src_RequestBlock (is_codec env_req_block build_req_block enc_req_block size_req_block dec_req_block) /\
+  tied_codec src_RequestSeek (is_codec env_req_seek build_req_seek enc_req_seek size_req_seek dec_req_seek) /\
+  tied_codec src_RequestUpgrade
+    (is_codec env_req_upgrade build_req_upgrade enc_req_upgrade size_req_upgrade dec_req_upgrade) /\
+  tied_codec src_DataBlock (is_codec env_data_block build_data_block enc_data_block size_data_block dec_data_block) /\
+  tied_codec src_DataHash (is_codec env_data_hash build_data_hash enc_data_hash size_data_hash dec_data_hash) /\
+  tied_codec src_DataSeek (is_codec env_data_seek build_data_seek enc_data_seek size_data_seek dec_data_seek) /\
+  tied_codec src_DataUpgrade
+    (is_codec env_data_upgrade build_data_upgrade enc_data_upgrade size_data_upgrade dec_data_upgrade).
+Proof. exact source_codecs_are_the_models. Qed.
+
+(* what the statement above says, spelled out (the definitions live in CodecTie.v; these pin their meaning) *)
+Theorem C11_tie_meaning :
+  (forall P, tied_codec None P <-> True) /\ (forall d P, tied_codec (Some d) P <-> P d) /\
+  (forall A (envA : A -> env) buildA enc size dec d,
+     is_codec envA buildA enc size dec d <->
+     (forall x, enc x = genc (cd_enc d) (envA x)) /\
+     (forall x, Ok (size x) = gsize (cd_size d) (envA x)) /\
+     (forall b, dec b = gdecode buildA (cd_dec_types d) (cd_ctor d) b) /\
+     cd_dec_types d = map snd (cd_enc d) /\ cd_ctor d = map fst (cd_enc d) /\ cd_size d = cd_enc d).
+Proof. split; [|split]; intros; unfold tied_codec, is_codec; tauto. Qed.
+
+(* the generic interpreter uses the primitives of the model's codecs, field after field *)
+Theorem C11_generic_interpreter :
+  (forall e, genc [] e = Ok [] /\ gsize [] e = Ok 0) /\
+  (forall name t r e,
+     genc ((name, t) :: r) e = (a <- enc_field t (e name) ;; b <- genc r e ;; Ok (a ++ b)) /\
+     gsize ((name, t) :: r) e = (a <- size_field t (e name) ;; b <- gsize r e ;; Ok (a + b))) /\
+  (forall n, enc_field FU64 (Some (VU n)) = Ok (enc_uint n) /\ size_field FU64 (Some (VU n)) = Ok (size_uint n)) /\
+  (forall v, enc_field FBytes (Some (VB v)) = Ok (enc_buffer v) /\ size_field FBytes (Some (VB v)) = Ok (size_buffer v)) /\
+  (forall l, enc_field FNodes (Some (VNs l)) = enc_nodes l /\ size_field FNodes (Some (VNs l)) = Ok (size_nodes l)) /\
+  (forall h, enc_field FHash32 (Some (VH h)) = (if Nat.eqb (length h) 32 then Ok h else Err EncodingErr) /\
+             size_field FHash32 (Some (VH h)) = Ok 32) /\
+  (forall t, enc_field t None = Panic MISMATCH /\ size_field t None = Panic MISMATCH) /\
+  (forall s v, enc_field (FOther s) v = Panic MISMATCH /\ size_field (FOther s) v = Panic MISMATCH) /\
+  (forall x, build_node (env_node x) = Some x) /\ (forall x, build_req_block (env_req_block x) = Some x) /\
+  (forall x, build_req_seek (env_req_seek x) = Some x) /\ (forall x, build_req_upgrade (env_req_upgrade x) = Some x) /\
+  (forall x, build_data_block (env_data_block x) = Some x) /\ (forall x, build_data_hash (env_data_hash x) = Some x) /\
+  (forall x, build_data_seek (env_data_seek x) = Some x) /\ (forall x, build_data_upgrade (env_data_upgrade x) = Some x).
+Proof. exact generic_interpreter_spec. Qed.
+
+(* non-vacuity / sensitivity: a description that lists the two fields of DataHash in the other order is refuted *)
+Example C11_ex_swapped_source_refuted :
+  ~ is_codec env_data_hash build_data_hash enc_data_hash size_data_hash dec_data_hash
+      {| cd_size := [("index", FU64); ("nodes", FNodes)]; cd_enc := [("nodes", FNodes); ("index", FU64)];
+         cd_dec_types := [FU64; FNodes]; cd_ctor := ["index"; "nodes"] |}%string.
+Proof. exact swapped_fields_refuted. Qed.
+
 (* non-vacuity: concrete values meet the premises, and a concrete prefix is refused *)
 Example C11_ex_ok :
   data_upgrade_ok (mkDataUpgrade 0 18446744073709551615
@@ -54,3 +111,6 @@ Print Assumptions C11_data_seek.
 Print Assumptions C11_data_upgrade.
 Print Assumptions C11_node_bad_hash.
 Print Assumptions C11_uint_spec.
+Print Assumptions C11_source_codecs.
+Print Assumptions C11_tie_meaning.
+Print Assumptions C11_generic_interpreter.
